@@ -46,11 +46,11 @@ PROPS = {
         technique="property-based testing: rapid state machine over the real app, join of market/deployment stores with escrow store after every transaction",
         level_text="After every transaction of generated histories the market/deployment records are joined with escrow records through the id mapping (lease<->payment, bid<->deposit account, deployment<->account) in both directions, plus per-record refund checks when a bid or deployment ends and 'no bid deposit stays in escrow once its deployment has ended'.",
         level_note="Trusted: as C01."),
-    "C04": chain("C04", 60, 1500, replay="C04", floor=0.3,
+    "C04": chain("C04", 100, 1500, replay="C04", floor=0.3,
         technique="property-based testing: rapid state machine over the real app, full scan of deployment and market stores after every transaction against the listed relations",
         level_text="After every transaction and block advance of generated multi-tenant histories (including overdrafts, pause/start/close of groups before and after overdraft) a full scan checks each relation of the statement between deployments, groups, orders, bids and leases, and the lease/bid/order price relation.",
         level_note="Trusted: as C01."),
-    "C06": chain("C06", 60, 1200, floor=0.3,
+    "C06": chain("C06", 100, 1200, floor=0.3,
         technique="property-based testing: rapid state machine over the real app, signer table from the statement vs GetSigners, wrongly-signed twins, raw key/value diff of all stores decoded by key layout and by embedded ids",
         level_text="Every message type is executed in reachable states where one owner holds several deployments with prefix-colliding sequence numbers; each transaction's raw store diff must decode (by key layout and, cross-checked, by the ids inside the value) to records of the object the message names; twins signed by another account must be rejected without effect; only the signer's balance may fall.",
         level_note="Trusted: as C01; the key-layout decoder is white-box (anchors key.go files)."),
@@ -86,7 +86,7 @@ PROPS = {
         "units": [
             {"pkg": "app", "run": "^TestVerif_C19_Replay$", "checks": 1, "timeout": 300},
             {"pkg": "app", "run": "^TestVerif_C19_Direct$", "checks": {Q: 3000, T: 250000}, "shards": {Q: 2, T: 16}, "timeout": {Q: 600, T: 3000}, "shrinktime": "30s"},
-            {"pkg": "app", "run": "^TestVerif_C19_Chain$", "checks": {Q: 30, T: 400}, "shards": {Q: 2, T: 16}, "steps": 60, "timeout": {Q: 600, T: 3000}, "shrinktime": "30s"},
+            {"pkg": "app", "run": "^TestVerif_C19_Chain$", "checks": {Q: 60, T: 400}, "shards": {Q: 2, T: 16}, "steps": 60, "timeout": {Q: 600, T: 3000}, "shrinktime": "30s"},
         ],
     },
     "C10": {
